@@ -122,6 +122,11 @@ def random_case(rng):
     if x and rng.random() < 0.35:
         x = x[:-1]
     case = {"secs": secs}
+    if rng.random() < 0.015:
+        # in-memory content that names an existing directory or device
+        case["x"] = codec.enc_str(fsup.path_like(rng))
+        case["query_in_write"] = False
+        return case
     if rng.random() < 0.2:
         # binary storage (bytes content, one byte per character; through memory or a path)
         case["binary"] = True
